@@ -22,7 +22,11 @@ from ..symc import SymC
 OK_EXC = (ValueError, TypeError, NotImplementedError)
 
 
-def _expect_raises(rec, name, sig, fn, when="call", must=False):
+class _Garbage(Exception):
+    pass
+
+
+def _expect_raises(rec, name, sig, fn, when="call", must=False, pure=False):
     """fn() must raise one of OK_EXC. Records the obligation; with must=True a silent acceptance is recorded as a violation
     (a UserWarning "cannot confirm ... is zero" for sympy inputs counts as not silent, by the library's design)."""
     try:
@@ -38,7 +42,7 @@ def _expect_raises(rec, name, sig, fn, when="call", must=False):
     except Exception as e:
         from .herm import library_exception_info
 
-        is_lib, where = library_exception_info(e)
+        is_lib, where = library_exception_info(e, pure_inputs=pure)
         if not is_lib:
             raise
         rec.direct_violation(name, sig + f":wrong-exception-{type(e).__name__}", {"exception": f"{type(e).__name__}: {e}", "where": where})
@@ -290,6 +294,103 @@ def c20_symbolic(cfg):
             rec.direct_violation("non-Hermitian symbolic term accepted in Hermitian mode", sig + ":not-rejected", {"order": order, "returned": str(res[0])[:200]})
         return rec
 
+    if kind == "implicit_shared_level":
+        # implicit mode: an explicit level that is degenerate with a level of the implicit complement and coupled to it
+        from scipy import sparse
+
+        n = cfg["n"]
+        herm = cfg.get("hermitian", True)
+        E = np.array([float(x) for x in cfg["spectrum"]])
+        c, sn = 0.6, 0.8  # exact 3-4-5 rotation mixing the degenerate pair (0, 1) so that neither partner is a basis vector
+        Q = np.eye(n)
+        if cfg.get("rotated") == "generic":
+            # a rotation whose entries are not exactly representable: E - H_0 is then singular only up to rounding
+            c, sn = np.cos(0.3), np.sin(0.3)
+            Q[:3, :3] = np.array([[c, -sn, 0], [sn, c, 0], [0, 0, 1]]) @ np.array([[1, 0, 0], [0, c, -sn], [0, sn, c]])
+        elif cfg.get("rotated"):
+            Q[:2, :2] = [[c, -sn], [sn, c]]
+        H0 = (Q * E) @ Q.T
+        rng = np.random.default_rng(2)
+        H1 = rng.integers(1, 4, (n, n)).astype(float)
+        H1 = H1 + H1.T if herm else H1
+        h0 = sparse.csr_array(H0) if cfg.get("sparse") else H0
+        vecs = [Q[:, :1]]
+
+        def run():
+            series = block_diagonalize([h0, H1], subspace_eigenvectors=vecs, hermitian=herm)
+            vals = [series[1][(0, 1, 1)] @ np.eye(n), series[0][(0, 0, 2)]]
+            if not all(np.all(np.isfinite(np.asarray(v, dtype=complex))) and np.max(np.abs(np.asarray(v, dtype=complex))) < 1e8 for v in vals):
+                raise _Garbage(f"non-finite or astronomically large values returned: max |U_01,1| = {np.max(np.abs(np.asarray(vals[0], dtype=complex))):.2e}")
+            return vals
+
+        try:
+            _expect_raises(rec, "explicit level degenerate with a level of the implicit complement", sig + f":rotated={cfg.get('rotated')}", run, when="definition or first use", must=True, pure=True)
+        except _Garbage as g_:
+            rec.direct_violation("explicit level degenerate with the implicit complement: answered with garbage", sig + f":rotated={cfg.get('rotated')}:garbage", {"note": str(g_)}, reproduced=True)
+        return rec
+
+    if kind == "second_quantized":
+        # the same ill-posedness classes for operator-valued (second-quantised) Hamiltonians
+        from sympy.physics.quantum import Dagger
+        from sympy.physics.quantum.boson import BosonOp
+
+        a, b = BosonOp("a"), BosonOp("b")
+        w, g = sympy.symbols("omega g", real=True)
+        Na, Nb = Dagger(a) * a, Dagger(b) * b
+        which = cfg["which"]
+        herm = cfg.get("hermitian", True)
+
+        def first_use(build, requests):
+            def run():
+                series = build()
+                out = []
+                for wq, idx in requests:
+                    out.append(series[wq][idx])
+                return series, out
+
+            return run
+
+        if which == "shared_level_two_blocks":
+            # two coupled blocks with identical H_0
+            H = sympy.Matrix([[w * Na, g], [g, w * Na]])
+            run = first_use(lambda: block_diagonalize(H, subspace_indices=[0, 1], symbols=[g], hermitian=herm), [(1, (0, 1, 1)), (0, (0, 0, 2))])
+        elif which == "shared_level_resonant_term":
+            # the term selected for elimination (a^dagger b) connects equal unperturbed energies
+            H = w * Na + w * Nb + g * (Dagger(a) * b + Dagger(b) * a)
+            run = first_use(lambda: block_diagonalize(H, symbols=[g], hermitian=herm), [(1, (0, 0, 1)), (0, (0, 0, 2))])
+        elif which == "shared_level_matrix_element":
+            # inside one fully diagonalised matrix block: two matrix levels whose energies coincide after the boson shift
+            D = sympy.Symbol("Delta", real=True)
+            H = sympy.Matrix([[w * Na, g * a], [g * Dagger(a), w * Na - w]])
+            run = first_use(lambda: block_diagonalize(H, symbols=[g], hermitian=herm), [(1, (0, 0, 1)), (0, (0, 0, 2))])
+        elif which == "asymmetric_operator_mask":
+            H = w * Na + g * (a + Dagger(a))
+            run = first_use(lambda: block_diagonalize(H, symbols=[g], fully_diagonalize={0: a}, hermitian=True), [(0, (0, 0, 1)), (1, (0, 0, 1))])
+        elif which == "asymmetric_operator_matrix_mask":
+            D = sympy.Symbol("Delta", real=True)
+            H = sympy.Matrix([[w * Na, g * (a + Dagger(a))], [g * (a + Dagger(a)), w * Na + D]])
+            mask = sympy.Matrix([[0, a + Dagger(a)], [0, 0]])
+            run = first_use(lambda: block_diagonalize(H, symbols=[g], fully_diagonalize={0: mask}, hermitian=True), [(0, (0, 0, 1)), (1, (0, 0, 1))])
+        elif which == "nonhermitian_operator_expression":
+            H = w * Na + g * a
+            run = first_use(lambda: block_diagonalize(H, symbols=[g], hermitian=True), [(0, (0, 0, 1)), (0, (0, 0, 2))])
+        elif which == "nonhermitian_operator_matrix":
+            D = sympy.Symbol("Delta", real=True)
+            H = sympy.Matrix([[w * Na, g * a], [2 * g * Dagger(a), w * Na + D]])
+            run = first_use(lambda: block_diagonalize(H, subspace_indices=[0, 1], symbols=[g], hermitian=True), [(0, (0, 0, 2))])
+        elif which == "nonhermitian_sympy_list":
+            run = first_use(lambda: block_diagonalize([sympy.diag(0, 1), sympy.Matrix([[0, 1], [3, 0]])], subspace_indices=[0, 1], hermitian=True), [(0, (0, 0, 2))])
+        elif which == "nonhermitian_sympy_dict":
+            x = sympy.Symbol("x", real=True)
+            run = first_use(lambda: block_diagonalize({sympy.S.One: sympy.diag(0, 1), x: sympy.Matrix([[0, 1 + sympy.I], [3, 0]])}, subspace_indices=[0, 1], hermitian=True), [(0, (0, 0, 2))])
+        else:
+            raise KeyError(which)
+        res = _expect_raises(rec, f"second-quantised / symbolic-container class {which}", sig + f":{which}", run, when="definition or first use", must=True)
+        if res is not None:
+            vals = res[0][1]
+            rec.obligations[-1]["returned"] = [str(v)[:120] for v in vals]
+        return rec
+
     if kind == "exclusive_options":
         which = cfg["which"]
         N = 3
@@ -472,6 +573,16 @@ def configs(tier):
                         if how == "asymmetric" and not herm:
                             continue
                         S(kind="bad_mask_among_several", hermitian=herm, sizes=sizes, pos=[b], order=list(order), how=how)
+    for herm in (True, False):
+        for rotated in (False, True):
+            S(kind="implicit_shared_level", hermitian=herm, n=4, spectrum=["0", "0", "1", "2"], rotated=rotated, sparse=rotated)
+        S(kind="implicit_shared_level", hermitian=herm, n=5, spectrum=["1", "1", "3", "4", "6"], rotated="generic", sparse=True)
+    for which in ("shared_level_two_blocks", "shared_level_resonant_term", "shared_level_matrix_element"):
+        for herm in (True, False):
+            S(kind="second_quantized", which=which, hermitian=herm)
+    for which in ("asymmetric_operator_mask", "asymmetric_operator_matrix_mask", "nonhermitian_operator_expression", "nonhermitian_operator_matrix",
+                  "nonhermitian_sympy_list", "nonhermitian_sympy_dict"):
+        S(kind="second_quantized", which=which, hermitian=True)
     for order in (1, 2, 3):
         for how in ("real_asym", "complex_diag"):
             S(kind="nonhermitian_symbolic_term", hermitian=True, order=order, how=how)
